@@ -74,14 +74,21 @@ func c01SectionLength(r *core.Report) {
 		info := f.Pkg.TypesInfo
 		g := p.Graph(f)
 		var a, b types.Object
-		ast.Inspect(f.Body, func(n ast.Node) bool {
-			if as, ok := n.(*ast.AssignStmt); ok && len(as.Rhs) == 1 && len(as.Lhs) == 3 {
-				if c, ok := core.Unparen(as.Rhs[0]).(*ast.CallExpr); ok && core.CalleeName(info, c) == "carreader.ReadSectionLength" {
-					a, b = core.ObjOf(info, as.Lhs[0]), core.ObjOf(info, as.Lhs[1])
-				}
+		// the ReadSectionLength call: in the function itself or in a helper of the package it calls (readSectionHead)
+		for _, hf := range append([]*core.Func{f}, pkgScope(p, f, 1)...) {
+			if hf.Lit != nil || hf.Body == nil || a != nil {
+				continue
 			}
-			return true
-		})
+			hinfo := hf.Pkg.TypesInfo
+			ast.Inspect(hf.Body, func(n ast.Node) bool {
+				if as, ok := n.(*ast.AssignStmt); ok && len(as.Rhs) == 1 && len(as.Lhs) == 3 {
+					if c, ok := core.Unparen(as.Rhs[0]).(*ast.CallExpr); ok && core.CalleeName(hinfo, c) == "carreader.ReadSectionLength" {
+						a, b = core.ObjOf(hinfo, as.Lhs[0]), core.ObjOf(hinfo, as.Lhs[1])
+					}
+				}
+				return true
+			})
+		}
 		ok, n := a != nil && b != nil, 0
 		for _, rn := range g.Returns() {
 			if definitelyErrorReturn(g, f, rn) {
@@ -100,7 +107,11 @@ func c01SectionLength(r *core.Report) {
 			}
 			be, isBin := sum.(*ast.BinaryExpr)
 			if !isBin || be.Op != token.ADD {
-				ok = false
+				// the value travels through a struct built by a helper: head.totalLen / head.size()
+				ops := sumLeaves(p, f, res[1], 0)
+				if len(ops) != 2 || !((ops[0] == a && ops[1] == b) || (ops[0] == b && ops[1] == a)) {
+					ok = false
+				}
 				continue
 			}
 			x, y := core.ObjOf(info, be.X), core.ObjOf(info, be.Y)
@@ -808,4 +819,148 @@ func isByteExtraction(f *core.Func, conv *ast.CallExpr) bool {
 		return !found
 	})
 	return found
+}
+
+// sumLeaves resolves e, in fn, to the variables whose sum it is - through locals assigned once, through fields of a struct
+// that a helper of the package built with a keyed literal (head.totalLen), and through a method of that struct that
+// returns a sum of its fields (head.size()). nil when e is not such a sum.
+func sumLeaves(p *core.Prog, fn *core.Func, e ast.Expr, depth int) []types.Object {
+	if depth > 6 {
+		return nil
+	}
+	info := fn.Pkg.TypesInfo
+	e = stripConvs(info, core.Unparen(e))
+	// the field F of the struct held by local x: x, err := helper(...) with `return T{F: v, ...}, nil`
+	fieldOf := func(x ast.Expr, field string) (*core.Func, ast.Expr) {
+		xo := core.ObjOf(info, x)
+		if xo == nil {
+			return nil, nil
+		}
+		var call *ast.CallExpr
+		idx := -1
+		ast.Inspect(fn.Root().Body, func(m ast.Node) bool {
+			if as, ok := m.(*ast.AssignStmt); ok && len(as.Rhs) == 1 {
+				for i, l := range as.Lhs {
+					if core.ObjOf(info, l) == xo {
+						if c, isCall := core.Unparen(as.Rhs[0]).(*ast.CallExpr); isCall {
+							call, idx = c, i
+						}
+					}
+				}
+			}
+			return true
+		})
+		if call == nil {
+			return nil, nil
+		}
+		fo := core.Callee(info, call)
+		if fo == nil {
+			return nil, nil
+		}
+		h := p.ByObj[fo.Origin()]
+		if h == nil || h.Body == nil {
+			return nil, nil
+		}
+		hg := p.Graph(h)
+		var val ast.Expr
+		n := 0
+		for _, rn := range hg.Returns() {
+			if definitelyErrorReturn(hg, h, rn) {
+				continue
+			}
+			res := returnResults(rn)
+			if idx >= len(res) {
+				return nil, nil
+			}
+			cl, ok := core.Unparen(res[idx]).(*ast.CompositeLit)
+			if !ok {
+				return nil, nil
+			}
+			for _, el := range cl.Elts {
+				if kv, isKV := el.(*ast.KeyValueExpr); isKV {
+					if id, isId := kv.Key.(*ast.Ident); isId && id.Name == field {
+						val = kv.Value
+						n++
+					}
+				}
+			}
+		}
+		if n != 1 {
+			return nil, nil
+		}
+		return h, val
+	}
+	switch x := e.(type) {
+	case *ast.BinaryExpr:
+		if x.Op != token.ADD {
+			return nil
+		}
+		l, r := sumLeaves(p, fn, x.X, depth+1), sumLeaves(p, fn, x.Y, depth+1)
+		if l == nil || r == nil {
+			return nil
+		}
+		return append(l, r...)
+	case *ast.Ident:
+		o := info.Uses[x]
+		if v, isVar := o.(*types.Var); isVar && !v.IsField() && !isParamOf(fn.Root(), v) {
+			if d := singleDef(fn.Root(), v); d != nil {
+				if _, isCall := core.Unparen(d).(*ast.CallExpr); !isCall {
+					return sumLeaves(p, fn, d, depth+1)
+				}
+			}
+		}
+		if o != nil {
+			return []types.Object{o}
+		}
+	case *ast.SelectorExpr:
+		if h, val := fieldOf(x.X, x.Sel.Name); h != nil {
+			return sumLeaves(p, h, val, depth+1)
+		}
+	case *ast.CallExpr:
+		// x.size(): a method whose body returns a sum of receiver fields
+		sel, ok := core.Unparen(x.Fun).(*ast.SelectorExpr)
+		if !ok || len(x.Args) != 0 {
+			return nil
+		}
+		fo := core.Callee(info, x)
+		if fo == nil {
+			return nil
+		}
+		m := p.ByObj[fo.Origin()]
+		if m == nil || m.Body == nil || m.RecvObj() == nil || len(m.Body.List) != 1 {
+			return nil
+		}
+		rs, isRet := m.Body.List[0].(*ast.ReturnStmt)
+		if !isRet || len(rs.Results) != 1 {
+			return nil
+		}
+		var out []types.Object
+		var walk func(e ast.Expr) bool
+		walk = func(e ast.Expr) bool {
+			e = stripConvs(m.Pkg.TypesInfo, core.Unparen(e))
+			switch y := e.(type) {
+			case *ast.BinaryExpr:
+				return y.Op == token.ADD && walk(y.X) && walk(y.Y)
+			case *ast.SelectorExpr:
+				if core.ObjOf(m.Pkg.TypesInfo, y.X) != types.Object(m.RecvObj()) {
+					return false
+				}
+				h, val := fieldOf(sel.X, y.Sel.Name)
+				if h == nil {
+					return false
+				}
+				leaves := sumLeaves(p, h, val, depth+1)
+				if leaves == nil {
+					return false
+				}
+				out = append(out, leaves...)
+				return true
+			}
+			return false
+		}
+		if walk(rs.Results[0]) {
+			return out
+		}
+	}
+	return nil
 }
